@@ -92,6 +92,14 @@ def impl_search(ctx: Ctx, n: int):
                       ("%s: a + 0 = a" % cname, [a], a + z, a), ("%s: 0 + a = a" % cname, [a], z + a, a)]
             if hasattr(cls, "__iadd__"):
                 checks.append(("%s: a += b equals a + b" % cname, [a, b], iadd(a, b), a + b))
+                # the operand may be the accumulator itself (s += s; a list that contains its own accumulator)
+                t = a.model_copy(deep=True)
+                t += t
+                checks.append(("%s: a += a equals a + a (operand aliases the accumulator)" % cname, [a], t, a + a))
+                t2 = b.model_copy(deep=True)
+                for x in [a, t2, c]:
+                    t2 += x
+                checks.append(("%s: accumulating a list that contains the accumulator" % cname, [b, a, c], t2, ((b + a) + (b + a)) + c))
             if cname == "Stat":
                 l = [a, b, c] + [gen() for _ in range(rng.randint(0, 3))]
                 p = l[:]
